@@ -43,7 +43,21 @@ class NpProxy(types.ModuleType):
         types.ModuleType.__init__(self, 'numpy_proxy')
 
     def __getattr__(self, name):
-        return getattr(np, name)
+        v = getattr(np, name)
+        h = models.HANDLERS.get(v) if callable(v) else None
+        if h is None:
+            return v
+
+        def routed(*a, **k):
+            # list/tuple arguments holding symbolic scalars do not trigger __array_function__
+            for x in a:
+                if isinstance(x, (list, tuple)) and _seq_has_sym(x):
+                    return h(*a, **k)
+                if isinstance(x, (S.SR, S.SB, S.SC)):
+                    return h(*a, **k)
+            return v(*a, **k)
+        routed.__name__ = name
+        return routed
 
     @staticmethod
     def array(obj, dtype=None, *a, **k):
